@@ -218,7 +218,7 @@ def parse_trace_result(res, n_events):
     """classify a trace-validation run from TLC's own output."""
     out = res["out"]
     mism = extract_tuples(out, "MISMATCH")
-    um = re.search(r'<<"UNMATCHED", (\d+), (\d+)>>', out)
+    um = re.search(r'<<"UNMATCHED", (\d+), (\d+)(?:, \d+)*>>', out)
     if res["completed"] and not um:
         return {"status": "accepted", "mismatch": mism}
     if um:
@@ -287,9 +287,8 @@ def validate_cases(tag, spec, cfg, cases, nshards=14, timeout=1800, xmx="3g", de
             acc += bad
             evcount += k
             cur = cur[bad + 1:]
-        else:
-            if cur:
-                err = "more than %d rejected cases in shard %d" % (max_reject_rounds, i)
+        # more than max_reject_rounds rejected cases in one shard: the rest of the shard stays
+        # unvalidated (the check fails anyway, with the rejections found so far)
         return rej, states, runs, acc, evcount, err
 
     with concurrent.futures.ThreadPoolExecutor(max_workers=min(14, len(shards) or 1)) as ex:
